@@ -86,16 +86,26 @@ def gen_enc_comp(rng, big=300, tagged=True):
     return show_comp(d, blob, actual, True)
 
 
+def _with_twin(rng, comps):
+    """now and then the same payload twice (one image stored per hardware variant): same stored bytes, same MAC"""
+    if comps and rng.random() < 0.25:
+        d, blob, actual, enc = rng.choice(comps).split("|")
+        if enc == "0" and rng.random() < 0.6:
+            d = show_desc(gen_desc(rng))
+        comps.insert(rng.randrange(len(comps) + 1), f"{d}|{blob}|{actual}|{enc}")
+    return comps
+
+
 def gen_mixed_comps(rng, big=300, maxn=5, penc=0.4):
     """plain and encrypted components in any order"""
     n = rng.choice([1, 2, 2, 3, 3, maxn])
-    return ";".join(gen_enc_comp(rng, big, rng.random() < 0.9) if rng.random() < penc else gen_plain_comp(rng, big)
-                    for _ in range(n))
+    return ";".join(_with_twin(rng, [gen_enc_comp(rng, big, rng.random() < 0.9) if rng.random() < penc
+                                     else gen_plain_comp(rng, big) for _ in range(n)]))
 
 
 def gen_comps(rng, big=2000, maxn=6):
     n = rng.choice([0, 1, 1, 2, 2, 3, maxn])
-    return ";".join(gen_plain_comp(rng, big) for _ in range(n)) or "-"
+    return ";".join(_with_twin(rng, [gen_plain_comp(rng, big) for _ in range(n)])) or "-"
 
 
 WORDS = ["FirmwareId", "FirmwareVersion", "Creator", "Configuration", " a", "a b", "Bf3Update", "x" * 30, "ß→☃",
